@@ -318,6 +318,11 @@ class Engine:
         if shape.startswith("tuple:"):
             return VTuple([self.fresh_value(st, s, f"{name}_{i}")
                            for i, s in enumerate(shape[6:].split(","))])
+        if shape == "optexc":
+            # exception instance or None (two scenarios)
+            if st.choose(2, f"optexc:{name}") == 0:
+                return VNone()
+            return VExc("PASSED")
         if shape.startswith("iter"):
             return self.lib.fresh_iter(st, name)
         if shape == "stream":
@@ -559,6 +564,8 @@ class Engine:
             if v.t is not None:
                 return v.t != NONE_U
             return z3.BoolVal(True)
+        if isinstance(v, VExc):
+            return z3.BoolVal(True)
         if isinstance(v, VDict):
             k = z3.Const("k!tr", U)
             return z3.Exists([k], v.dom[k])
@@ -630,6 +637,9 @@ class Engine:
             return a.t == b.t
         if isinstance(a, VStream) and isinstance(b, VStream):
             return a.t == b.t
+        if isinstance(a, VFunc) and isinstance(b, VFunc) and \
+                a.t is not None and b.t is not None:
+            return a.t == b.t
         raise Unsupported(f"equality of {a!r} and {b!r}")
 
     # ======================================================================
@@ -690,6 +700,8 @@ class Engine:
             return VU(self.strconst("b:" + v.decode("latin1")), lit=v)
         if v is Ellipsis:
             return VNone()
+        if isinstance(v, float):
+            return VU(self.strconst("float:" + repr(v)), lit=v)
         raise Unsupported(f"constant {v!r}")
 
     def e_Name(self, st, node):
@@ -697,6 +709,8 @@ class Engine:
         if name in st.locals:
             v = st.locals[name]
             if v is None:
+                if st.spec and st.old and st.old["locals"].get(name) is not None:
+                    return st.old["locals"][name]  # deleted parameter
                 raise RaiseEx("UnboundLocalError", node.lineno, name)
             return v
         if st.spec and name in st.ghost and isinstance(st.ghost[name], V):
@@ -800,6 +814,8 @@ class Engine:
             if isinstance(node.op, ast.And) and not t:
                 return v
             if isinstance(node.op, ast.Or) and t:
+                if isinstance(v, VOpt):
+                    return v.val  # truthy => not None
                 return v
         return v
 
@@ -1351,6 +1367,13 @@ class Engine:
                 return st.locals[e.id].cls
             return e.id
         if isinstance(e, ast.Attribute):
+            if isinstance(e.value, ast.Name) and e.value.id in st.locals:
+                v = self.eval(st, e)
+                if isinstance(v, VExc):
+                    return v.cls
+                # an exception object carried as an opaque value: a failure
+                # of caller-supplied code
+                return "Foreign"
             return e.attr
         raise Unsupported("raise of a computed exception")
 
@@ -1525,16 +1548,25 @@ class Engine:
             Vis().visit(b)
         return names, fields, calls, yields[0]
 
-    def havoc_for_loop(self, st: State, node, lc, extra_names=()):
+    def loop_havoc_set(self, st: State, node, lc, extra_names=()):
         names, fields, calls, has_yield = self.assigned_names(
             node.body + ([node.test] if isinstance(node, ast.While) else []))
         names |= set(extra_names)
         names |= set(lc.havoc)
-        # mutated containers: x.append(..), x[i] = .., del x[i], x.f = ..
         mut_names, heap_keys, ghosts = self.lib.loop_effects(st, node, calls,
                                                              fields)
         names |= mut_names
         names -= set(lc.keep)
+        for key in sorted(heap_keys):
+            if not any(k == key or k.startswith(key + "#") for k in st.heap):
+                shape = self._shape_of_key(key)
+                if shape is None:
+                    raise Unsupported(f"havoc of unknown field {key}")
+                self._materialise(st, key, shape)
+        return names, heap_keys, ghosts, has_yield
+
+    def havoc_for_loop(self, st: State, node, lc, hs):
+        names, heap_keys, ghosts, has_yield = hs
         for n in sorted(names):
             if n in st.locals and st.locals[n] is not None:
                 st.locals[n] = self.havoc_value(st, st.locals[n], n)
@@ -1600,12 +1632,15 @@ class Engine:
         fork / raise); `pre_body()` binds the loop variable for `for` loops;
         `step()` runs after the body."""
         line = node.lineno
+        hs = self.loop_havoc_set(st, node, lc, extra_names)
+        for gname, gexpr in getattr(lc, "ghost_set", {}).items():
+            st.ghost[gname] = self.spec_eval(st, gexpr)
         st.ghost["__loop_entry"] = st.snapshot()
         for k, cl in enumerate(lc.inv):
             self.oblige(st, f"inv-entry(loop{ordinal})", line,
                         self.spec_bool(st, cl), cl.props, label=str(k))
-        entry_snap = st.snapshot()
-        self.havoc_for_loop(st, node, lc, extra_names)
+        entry_snap = st.ghost["__loop_entry"]
+        self.havoc_for_loop(st, node, lc, hs)
         st.ghost["__loop_entry"] = entry_snap
         if post_havoc:
             post_havoc()
@@ -1683,6 +1718,7 @@ class Engine:
         self.imports = S.module_imports(tree)
         self.cur = fc
         self.cur_node = node
+        self.feas_cache = {}
         fc.source_hash = h
         fc.source_path = path
         fc.lineno = node.lineno
